@@ -213,6 +213,9 @@ impl Run<'_> {
                                     conns[k].sent += n as u64;
                                 }
                                 Err(Error::SocketDeviceError(SocketError::InsufficientBufferSpaceInPeer)) => skip_tx_check = true,
+                                // sending on a connection whose handshake has not completed may be
+                                // refused (nothing may be transmitted then: checked below)
+                                Err(Error::SocketDeviceError(SocketError::NotConnected)) if !conns[k].established => {}
                                 other => return Err(format!("{}: returned {:?}", what, other)),
                             }
                         }
